@@ -63,6 +63,11 @@ var vsContexts = []string{
 	"fn main() { }\nimpl FooFeature with { temperature } for $Other {\n  fn set_temp(self: $Other, celsius: float) { %S }\n}",
 	"fn main() { let x = 1 + { %S 2 }; println(x); }",
 	"fn main() { while { %S false } { } }",
+	"fn main() { let v = if 2 < 1 { 1 } else { %S if 1 < 2 { 2 } else { 3 } }; println(v); }",
+	"fn main() { if 2 < 1 { println(0); } else if 1 < 2 { %S } else { println(9); } }",
+	"fn main() { if 2 < 1 { println(0); } else { %S if 1 < 2 { println(1); } } }",
+	"fn main() { let v = match 1 { 1 => { %S 5 }, _ => 6 }; println(v); }",
+	"fn main() { let v = try { %S 1 } catch e { 2 }; println(v); }",
 }
 
 const vsPrelude = "import trigger minute from triggers;\nimport trigger message from triggers;\nimport templ FooFeature from templates;\n" +
